@@ -1306,7 +1306,7 @@ Proof.
   unfold lokN in L. unfold step. destruct (pc (thr s u)) eqn:Hpc.
   all: try (apply DSame; unfold next_ret; dmatch; reflexivity).
   - (* PSched *)
-    rewrite Hts, Hto by (rewrite Hpc; discriminate).
+ Show. all: fail.
     assert (Hd : dq (fst (match k with
               | KSpawn g | KWake g => let '(e1, T') := finish u (thr s u) (cur (thr s u)) (Zn g) in
                   (set_thr (set_dq s (4 * u + 3 - sfrom s u) (f :: dq s (4 * u + 3 - sfrom s u))) u T', ev u (l_to u) 9 (Zn (4 * u + 3 - sfrom s u)) ++ e1)
